@@ -85,7 +85,7 @@ Proof. unfold sys_next, sys_next_gen. rewrite !in_app_iff. auto 7. Qed.
 Lemma in_sys_ping s p : In p (step_ping s) -> In p (sys_next s).
 Proof. unfold sys_next, sys_next_gen. rewrite !in_app_iff. auto 8. Qed.
 Lemma in_sys_app s p : In p (step_app s) -> In p (sys_next s).
-Proof. unfold sys_next, sys_next_gen. rewrite !in_app_iff. auto 9. Qed.
+Proof. unfold sys_next, sys_next_gen. rewrite !in_app_iff. auto 10. Qed.
 
 Lemma norm_ping_ok s : tau_or_id s (norm_ping s).
 Proof.
@@ -150,8 +150,10 @@ Proof. intros H1 H2. rewrite <- (app_nil_r t). eapply vexec_trans; eauto. Qed.
 Lemma wexec_vexec_nil s s' : wexec s [] s' -> vexec s [] s'.
 Proof. intros H. exists []. split; [reflexivity|exact H]. Qed.
 
-Lemma hidden_cases l : is_hidden l = true -> l = Tau \/ exists e, l = LEnq e.
-Proof. destruct l; simpl; intros H; try discriminate; [left; reflexivity|right; eexists; reflexivity]. Qed.
+Lemma hidden_cases l : is_hidden l = true -> l = Tau \/ (l <> Tau /\ visible [l] = []).
+Proof.
+  destruct l; simpl; intros H; try discriminate; [left; reflexivity| |]; right; split; try discriminate; reflexivity.
+Qed.
 
 Lemma tau_succs_reach s s' : In s' (tau_succs s) -> vexec s [] s'.
 Proof.
@@ -159,10 +161,10 @@ Proof.
   apply filter_In in H. destruct H as [H T]. simpl in T.
   apply sys_next_gen_incl in H.
   eapply vexec_snoc_hidden; [|apply wexec_vexec_nil, norm_reach].
-  apply hidden_cases in T. destruct T as [T|[e T]]; subst l.
-  - exists []. split; [reflexivity|]. eapply wexec_tau; [left; exact H|apply wexec_nil].
-  - exists [LEnq e]. split; [reflexivity|].
-    eapply wexec_vis; [discriminate|left; exact H|apply wexec_nil].
+  apply hidden_cases in T. destruct T as [T|[Tn Tv]].
+  - subst l. exists []. split; [reflexivity|]. eapply wexec_tau; [left; exact H|apply wexec_nil].
+  - exists [l]. split; [exact Tv|].
+    eapply wexec_vis; [exact Tn|left; exact H|apply wexec_nil].
 Qed.
 
 Lemma vis_succs_reach l s s' : is_hidden l = false -> In s' (vis_succs l s) -> vexec s [l] s'.
@@ -330,4 +332,17 @@ Example accepts_after_error :
   accepts 50 [LConnCall [] true; LInit; LPeerSend (LnEv xa); LPeerSend (LnEv xe); LDeliver xa; LDeliver xe;
               LDisc; LReturn (EErrEvent [120%N]); LIsConn false; LPeerEOF;
               LConnCall [] true; LInit; LPeerSend (LnEv xb); LDeliver xb] = true.
+Proof. vm_compute. reflexivity. Qed.
+
+(* the sending direction breaks, then Quit(): the failed write of the QUIT is ignored, Connect
+   returns nil with CLOSED - and nothing else *)
+Example accepts_quit_write_fault_nil :
+  accepts 50 [LConnCall [] true; LInit; LWFault; LSend (mkOut true [113%N]); LClosed; LDisc; LReturn ENil] = true.
+Proof. vm_compute. reflexivity. Qed.
+Example rejects_quit_write_fault_error :
+  accepts 50 [LConnCall [] true; LInit; LWFault; LSend (mkOut true [113%N]); LDisc; LReturn EIO] = false.
+Proof. vm_compute. reflexivity. Qed.
+(* whereas a failed write of any other line ends the connection with that error *)
+Example accepts_write_fault_error :
+  accepts 50 [LConnCall [] true; LInit; LWFault; LSend (mkOut false [111%N]); LDisc; LReturn EIO] = true.
 Proof. vm_compute. reflexivity. Qed.
